@@ -21,7 +21,7 @@ def run(ctx):
     fixtures.run(ctx, ['state', 'taint', 'wrap', 'emptyrange'])
     # ring cursors are only ever stored wrapped; drop loops of shrinking operations are not empty by construction
     wrap.run(ctx, fx, 'src/containers/specialized/circular_queue.rs', 'containers::specialized::circular_queue::AutoGrowCircularQueue')
-    ctx.floor('R-WRAP.stores', 9)
+    ctx.floor('R-WRAP.stores', 5)
     shrink.empty_range(ctx, fx, FILES)
     # MmapVec grows by re-reading its file: the live mapping is written back first, unconditionally
     rec = fx.raw('memory::mmap_vec::MmapVec::<T>::resize_to_capacity')
@@ -29,7 +29,7 @@ def run(ctx):
         raise Broken('MmapVec::resize_to_capacity not found')
     order.precede(ctx, Fn(rec), r'MmapVec::<T>::sync$', r'::create_mmap$', 'R-ORDER', 'mapping written back before the file is re-read into the new mapping')
     ctx.floor('R-ORDER.events', 1)
-    ctx.floor('R-EMPTYRANGE.ranges', 9)
+    ctx.floor('R-EMPTYRANGE.ranges', 3)
     rc.unsafe_sinks(ctx, fx, FILES, "R-GUARD")
     ctx.floor("R-GUARD.entries", 25)
     ctx.floor("R-GUARD.unchecked_sinks", 20)
